@@ -560,7 +560,33 @@ func contentVerbatim(c *Ctx, pp, gp *packages.Package) {
 		return ""
 	}
 	nuse := 0
+	// a predicate (no writer parameter, only boolean results) cannot write content: what it does to a name it compares
+	// (folding case before a table lookup) is not a rewrite of the file
+	isPredicate := func(fd *ast.FuncDecl) bool {
+		obj, _ := pinfo.Defs[fd.Name].(*types.Func)
+		if obj == nil {
+			return false
+		}
+		sig := obj.Type().(*types.Signature)
+		if sig.Results().Len() == 0 {
+			return false
+		}
+		for i := 0; i < sig.Results().Len(); i++ {
+			if b, ok := sig.Results().At(i).Type().Underlying().(*types.Basic); !ok || b.Kind() != types.Bool {
+				return false
+			}
+		}
+		for i := 0; i < sig.Params().Len(); i++ {
+			if isWriterLike(sig.Params().At(i).Type()) {
+				return false
+			}
+		}
+		return true
+	}
 	for _, fd := range fns {
+		if isPredicate(fd) {
+			continue
+		}
 		var stack []ast.Node
 		ast.Inspect(fd.Body, func(n ast.Node) bool {
 			if n == nil {
